@@ -431,6 +431,27 @@ func (rs *RelationService) CreateTable(r *Relation, tableName string) error {
 		return ErrTableAlreadyExist
 	}
 
+	// check the catalog rows before storing the first one, so that a
+	// CREATE TABLE that fails leaves no half-created table behind
+	for _, fd := range r.Fields {
+		tuple := Tuple{
+			Relation: &schemaTableSchema,
+			Vals: map[string]interface{}{
+				"table_name":   tableName,
+				"field_name":   fd.Name,
+				"field_type":   int64(fd.DataType),
+				"field_length": fd.Len,
+			},
+		}
+		buf, err := tuple.Encode()
+		if err != nil {
+			return err
+		}
+		if err := checkRowSizeLimit(buf.Bytes()); err != nil {
+			return err
+		}
+	}
+
 	pg, err := rs.createPage()
 	if err != nil {
 		return err
